@@ -2,7 +2,7 @@
 //! fn: pallas_crypto::key::ed25519::SecretKeyExtended::{from_bytes,try_from,check_structure,public_key,sign,leak_into_bytes}
 //! fn: pallas_crypto::key::ed25519::SecretKey::{from,public_key,sign}
 //! fn: pallas_crypto::key::ed25519::PublicKey::{try_from(&[u8]),from([u8;32]),verify,as_ref}, Signature::{try_from(&[u8]),from([u8;64]),as_ref}
-//! stub: cryptoxide::ed25519::{keypair,signature,signature_extended,extended_to_public,verify} -> deterministic toy scheme (pk = seed ^ 0xA5.., sig = pk || len || msg) satisfying verify(m, pk(sk), sig(m, sk)) and rejecting everything else; only on the c11_*_plumbing_* harnesses
+//! stub: cryptoxide::ed25519::{keypair,signature,signature_extended,extended_to_public,verify} -> deterministic toy scheme (pk = seed ^ 0xA5.., sig = pk || (len, msg) || 0..) satisfying verify(m, pk(sk), sig(m, sk)) and rejecting everything else; only on the c11_*_plumbing_* harnesses
 //! outside: agreement of cryptoxide's Ed25519 with RFC 8032 (symbolic scalar multiplication and SHA-512 are not decidable here); messages longer than 4 bytes in the plumbing harnesses (the wrappers pass the slice through unchanged); hex FromStr / Display of keys and signatures
 //! assume: the plumbing assertions are also true of real Ed25519 (sign-then-verify holds; a tampered message/key/signature verifies with negligible probability), so a counterexample replays natively
 use pallas_crypto::key::ed25519::{PublicKey, SecretKey, SecretKeyExtended, Signature};
@@ -100,63 +100,66 @@ fn c11_q_signature_try_from_len() {
 // contract stubs: toy signature scheme
 // ---------------------------------------------------------------------------------------------
 pub mod toy {
+    //! loop-free (word-wise) so that the harness bound is set by the code under test (the 64-byte scrub loop)
+    fn rd(b: &[u8], o: usize) -> u64 {
+        u64::from_le_bytes([b[o], b[o + 1], b[o + 2], b[o + 3], b[o + 4], b[o + 5], b[o + 6], b[o + 7]])
+    }
+    fn wr(b: &mut [u8], o: usize, v: u64) {
+        let x = v.to_le_bytes();
+        b[o] = x[0];
+        b[o + 1] = x[1];
+        b[o + 2] = x[2];
+        b[o + 3] = x[3];
+        b[o + 4] = x[4];
+        b[o + 5] = x[5];
+        b[o + 6] = x[6];
+        b[o + 7] = x[7];
+    }
+    const K: u64 = 0xA5A5_A5A5_A5A5_A5A5;
+
+    /// pk = seed ^ 0xA5.. (a bijection)
     pub fn pk_of(seed: &[u8]) -> [u8; 32] {
         let mut pk = [0u8; 32];
-        let mut i = 0;
-        while i < 32 {
-            pk[i] = seed[i] ^ 0xA5;
-            i += 1;
-        }
+        wr(&mut pk, 0, rd(seed, 0) ^ K);
+        wr(&mut pk, 8, rd(seed, 8) ^ K);
+        wr(&mut pk, 16, rd(seed, 16) ^ K);
+        wr(&mut pk, 24, rd(seed, 24) ^ K);
         pk
     }
 
-    /// injective for messages up to 31 bytes
-    fn enc(m: &[u8]) -> [u8; 32] {
-        let mut e = [0u8; 32];
-        e[0] = if m.len() > 31 { 0xff } else { m.len() as u8 };
-        let mut i = 0;
-        while i < 31 {
-            if i < m.len() {
-                e[1 + i] = m[i];
-            }
-            i += 1;
-        }
-        e
+    /// injective for messages up to 7 bytes: (length, bytes)
+    fn enc(m: &[u8]) -> u64 {
+        let n = m.len();
+        let at = |i: usize| -> u64 { if i < n { (m[i] as u64) << (8 * (i + 1)) } else { 0 } };
+        (if n > 7 { 0xff } else { n as u64 }) | at(0) | at(1) | at(2) | at(3) | at(4) | at(5) | at(6)
     }
 
-    fn sig_of(pk: &[u8; 32], m: &[u8]) -> [u8; 64] {
-        let e = enc(m);
+    /// sig = pk || enc(m) || 0..
+    fn sig_of(pk: &[u8], m: &[u8]) -> [u8; 64] {
         let mut s = [0u8; 64];
-        let mut i = 0;
-        while i < 32 {
-            s[i] = pk[i];
-            s[32 + i] = e[i];
-            i += 1;
-        }
+        wr(&mut s, 0, rd(pk, 0));
+        wr(&mut s, 8, rd(pk, 8));
+        wr(&mut s, 16, rd(pk, 16));
+        wr(&mut s, 24, rd(pk, 24));
+        wr(&mut s, 32, enc(m));
         s
     }
 
     pub fn keypair(seed: &[u8; 32]) -> ([u8; 64], [u8; 32]) {
         let pk = pk_of(seed);
         let mut kp = [0u8; 64];
-        let mut i = 0;
-        while i < 32 {
-            kp[i] = seed[i];
-            kp[32 + i] = pk[i];
-            i += 1;
-        }
+        kp[..32].copy_from_slice(seed);
+        kp[32..].copy_from_slice(&pk);
         (kp, pk)
     }
 
     /// a keypair whose halves do not belong together (or that was scrubbed) yields a signature nobody accepts
     pub fn signature(message: &[u8], keypair: &[u8; 64]) -> [u8; 64] {
         let pk = pk_of(&keypair[..32]);
-        let mut ok = true;
-        let mut i = 0;
-        while i < 32 {
-            ok &= keypair[32 + i] == pk[i];
-            i += 1;
-        }
+        let ok = rd(keypair, 32) == rd(&pk, 0)
+            && rd(keypair, 40) == rd(&pk, 8)
+            && rd(keypair, 48) == rd(&pk, 16)
+            && rd(keypair, 56) == rd(&pk, 24);
         if ok {
             sig_of(&pk, message)
         } else {
@@ -174,13 +177,14 @@ pub mod toy {
 
     pub fn verify(message: &[u8], public_key: &[u8; 32], signature: &[u8; 64]) -> bool {
         let want = sig_of(public_key, message);
-        let mut ok = true;
-        let mut i = 0;
-        while i < 64 {
-            ok &= want[i] == signature[i];
-            i += 1;
-        }
-        ok
+        rd(&want, 0) == rd(signature, 0)
+            && rd(&want, 8) == rd(signature, 8)
+            && rd(&want, 16) == rd(signature, 16)
+            && rd(&want, 24) == rd(signature, 24)
+            && rd(&want, 32) == rd(signature, 32)
+            && rd(&want, 40) == rd(signature, 40)
+            && rd(&want, 48) == rd(signature, 48)
+            && rd(&want, 56) == rd(signature, 56)
     }
 }
 
@@ -200,9 +204,6 @@ macro_rules! plumbing_std {
             let pk = sk.public_key();
             let sig = sk.sign(&m);
             assert!(pk.verify(&m, &sig), "a signature verifies under the signer's public key");
-            // the same key signs the same message to the same signature, and public_key is stable
-            let pk2 = sk.public_key();
-            assert!(w64(pk.as_ref(), 0) == w64(pk2.as_ref(), 0) && w64(pk.as_ref(), 24) == w64(pk2.as_ref(), 24), "public_key() is stable");
             // single-bit tampering of message / signature / public key
             let bit: usize = kani::any();
             let what: u8 = kani::any();
